@@ -59,3 +59,7 @@ def fill(chk, NA):
         'complete product: every element, sub-element and composite node of every loadable map (quick: one per definition signature) x a value catalogue derived from the node own definition (length boundaries, 14+ character classes, every inline code and near misses, members / non-members of external sets, dates, times, date-time periods under every qualifier, regex hit/miss) x both charsets x single and joint external-code exclusions, run through the real element_if / composite_if / segment_if is_valid and compared as a set of error codes plus result flag with a definition evaluator over an independent reading of the map, data-element and code-set XML',
         'trusted: mc/grammar.py, the C13 reference recognisers as type oracle, errh_list as observation point; combinations the statement leaves open are asserted only as far as it goes and counted',
         'exhaustive product enumeration over all map nodes on the real validation functions against a definition evaluator', 'E1', 'DESIGN.md 3/C15')
+    chk('C12', 'model_checking',
+        'every document of a per-map corpus (minimal, all-filled, one per C03 fault kind, 8 structural mutation operators at fixed positions) is re-encoded with every admissible combination of 4 segment terminators x 3 element separators x 3 component separators x 4 line-break conventions (thorough: all 126 under charset E / 42 under B; quick: base, all single-factor changes and a pairwise covering array) and run through the real validator; verdict, error set and acknowledgement body must equal those of the base encoding of the same delimiter-free matrix',
+        'trusted: the reference tokenizer/encoder (mc/ref.py, c12.encode, cross-checked against gen.Doc.text), the tree reader and the C13 character tables; an offending value that itself carries component separators is compared modulo that separator',
+        'exhaustive enumeration of delimiter/layout configurations per document with a metamorphic oracle on the real validator', 'E3+E1', 'DESIGN.md 3/C12')
